@@ -169,10 +169,10 @@ impl Gen<'_> {
     }
 
     fn var_name(&mut self, ty: &Ty) -> String {
-        if matches!(self.profile, Profile::Scope | Profile::Array) && self.rng.chance(1, 2) && matches!(ty, Ty::Arr(_)) {
+        if matches!(self.profile, Profile::Scope | Profile::Array) && self.rng.chance(3, 4) && matches!(ty, Ty::Arr(_)) {
             // arrays share a few names too, so that a nested receiver `q[0].push(..)` in a callee and
             // a same-named array of its caller can be confused by a by-name lookup
-            let cand = *self.rng.pick(&["q", "u", "w"]);
+            let cand = *self.rng.pick(&["q", "q", "u"]);
             if self.may_declare_as(cand, ty) {
                 return cand.to_string();
             }
